@@ -920,3 +920,52 @@ pub(crate) fn get_amd_ordering<T: FloatT>(
 #[path = "test.rs"]
 #[cfg(test)]
 mod test;
+
+// read-only accessors for the external verification harness (C12)
+#[cfg(clarabel_verif)]
+impl<T> QDLDLFactorisation<T>
+where
+    T: FloatT,
+{
+    /// elimination tree (usize::MAX = root)
+    pub fn verif_etree(&self) -> Vec<usize> {
+        self.workspace.etree.clone()
+    }
+    /// predicted nonzero count of each column of L
+    pub fn verif_Lnz(&self) -> Vec<usize> {
+        self.workspace.Lnz.clone()
+    }
+    /// map from entries of the input matrix to entries of the permuted copy
+    pub fn verif_AtoPAPt(&self) -> Vec<usize> {
+        self.workspace.AtoPAPt.clone()
+    }
+    /// the permuted upper triangular matrix that is factored
+    pub fn verif_triuA(&self) -> CscMatrix<T> {
+        self.workspace.triuA.clone()
+    }
+    /// the permuted signs used by the dynamic regularisation
+    pub fn verif_Dsigns(&self) -> Vec<i8> {
+        self.workspace.Dsigns.clone()
+    }
+    /// the inverse permutation
+    pub fn verif_iperm(&self) -> Vec<usize> {
+        self.iperm.clone()
+    }
+    /// true if only a logical factorisation is held
+    pub fn verif_is_symbolic(&self) -> bool {
+        self.is_symbolic
+    }
+}
+/// wrapper of the private inverse-permutation routine
+#[cfg(clarabel_verif)]
+pub fn verif_invperm(p: &[usize]) -> Result<Vec<usize>, QDLDLError> {
+    _invperm(p)
+}
+/// wrapper of the crate-private symmetric permutation
+#[cfg(clarabel_verif)]
+pub fn verif_permute_symmetric<T: FloatT>(
+    A: &CscMatrix<T>,
+    iperm: &[usize],
+) -> (CscMatrix<T>, Vec<usize>) {
+    permute_symmetric(A, iperm)
+}
